@@ -62,7 +62,19 @@ func c15Scenario() *explore.Scenario {
 			other := peer.MakeECH(peer.ECHParams{ConfigID: cfgID ^ 0x55, AEADs: aeads, MaxNameLen: maxName, PublicName: public, KeyLabel: "the server's newer ech key"})
 			what := fmt.Sprintf("%s server-mode=%d config{id=%d aeads=%v maxname=%d public=%dB} secret=%dB", g.Name, mode, cfgID, aeads, maxName, len(public), len(secret))
 			ccfg := g.config(secret)
-			ccfg.EncryptedClientHelloConfigList = ech.ConfigList
+			// the list the client is given: the config alone, followed by a second config (for a key
+			// this server does not hold), or preceded by an entry of an unknown version (skipped by clients)
+			listShape := x.Choose("cfg.list", 3)
+			clientList := ech.ConfigList
+			switch listShape {
+			case 1:
+				third := peer.MakeECH(peer.ECHParams{ConfigID: cfgID ^ 0x33, AEADs: aeads, MaxNameLen: maxName, PublicName: public, KeyLabel: "a key of some other deployment"})
+				clientList = joinECHLists(ech.ConfigList[2:], third.ConfigList[2:])
+			case 2:
+				clientList = joinECHLists([]byte{0xfe, 0x0a, 0, 3, 1, 2, 3}, ech.ConfigList[2:])
+			}
+			what += fmt.Sprintf(" list-shape=%d", listShape)
+			ccfg.EncryptedClientHelloConfigList = clientList
 			ccfg.MinVersion = tls.VersionTLS13
 			ccfg.InsecureSkipVerify = true // certificate verification is C14's subject
 			ccfg.EncryptedClientHelloRejectionVerify = func(tls.ConnectionState) error { return nil }
@@ -208,10 +220,19 @@ func c15Scenarios(thorough bool) []*explore.Scenario {
 func init() {
 	register(&Prop{ID: "C15", Level: "exploration", Variant: "A", Scenarios: c15Scenarios,
 		Run: func(c *explore.Check, thorough bool) {
-			c.Rule = "every parrot with a real ECH extension and HelloGolang x server {accept, accept after HRR, reject with retry configs, reject without} x ECH config variants (config id 7/0/255, AEAD list all/AES-128-GCM/ChaCha20, max name length 32/0/255, public name 1 B / 55 B; <=2 deviations quick, full product thorough) x secret name {short, 253 B} x {Handshake alone, BuildHandshakeState then Handshake}: the secret name occurs nowhere in the client's byte stream, every outer hello is valid with SNI == public name and an outer ECH extension of the config id, accepting servers complete with ECHAccepted and ServerName on both sides and the decrypted inner hello naming the secret, rejecting servers yield ECHRejectionError with exactly the server's retry configs. distinct = case"
+			c.Rule = "every parrot with a real ECH extension and HelloGolang x server {accept, accept after HRR, reject with retry configs, reject without} x ECH config variants (config id 7/0/255, AEAD list all/AES-128-GCM/ChaCha20, max name length 32/0/255, public name 1 B / 55 B, the config alone / followed by a config for a foreign key / preceded by an entry of an unknown version; <=2 deviations quick, full product thorough) x secret name {short, 253 B} x {Handshake alone, BuildHandshakeState then Handshake}: the secret name occurs nowhere in the client's byte stream, every outer hello is valid with SNI == public name and an outer ECH extension of the config id, accepting servers complete with ECHAccepted and ServerName on both sides and the decrypted inner hello naming the secret, rejecting servers yield ECHRejectionError with exactly the server's retry configs. distinct = case"
 			c.Assumptions = []string{"inner/outer extension expansion is judged through the server's transcript check (a wrong expansion fails Finished)", "certificate verification disabled here (C14 covers it)"}
 			runAll(c, c15Scenarios(thorough), 0)
 			c.Gate(c.Total.Counters["accepted"] > 30, "non-vacuity: %d accepted", c.Total.Counters["accepted"])
 			c.Gate(c.Total.Counters["rejected"] > 30, "non-vacuity: %d rejected", c.Total.Counters["rejected"])
 		}})
+}
+
+// joinECHLists builds an ECHConfigList from encoded ECHConfig entries.
+func joinECHLists(entries ...[]byte) []byte {
+	var body []byte
+	for _, e := range entries {
+		body = append(body, e...)
+	}
+	return append([]byte{byte(len(body) >> 8), byte(len(body))}, body...)
 }
